@@ -16,6 +16,7 @@ import (
 	logging "github.com/ipfs/go-log/v2"
 	ic "github.com/libp2p/go-libp2p/core/crypto"
 
+	"verif/harness/syncdrv"
 	"verif/harness/vlib"
 )
 
@@ -35,11 +36,11 @@ func main() {
 	logging.SetAllLoggers(logging.LevelFatal)
 	c := vlib.Init("C01")
 	defer c.Finish()
-	var err error
-	pubKey, _, err = ic.GenerateEd25519Key(rngReader{vlib.NewRand(4242)})
+	rawKey, _, err := ic.GenerateEd25519Key(rngReader{vlib.NewRand(4242)})
 	if err != nil {
 		panic(err)
 	}
+	pubKey = syncdrv.NewGatedKey(rawKey)
 	c.Family("sync", []string{"From Model Require Import C01_ChainSync."}, "sync_case_ok", 400)
 	defer func() {
 		for _, bw := range worlds {
@@ -62,7 +63,7 @@ func main() {
 	}
 
 	c.Res.Exhaustive = true
-	c.Res.Rule = "advertisement chains of length 0..5 (quick; 6 sampled) / 0..8 (thorough): head queried or WithHeadAdCid at every position x stop {none, every position incl. the head, foreign CID} given as latest sync / WithStopAdCid / with WithAdsResync / both x depth limit {none,1,k-1,k,k+1} (k = blocks from head to stop) placed as AdsDepthLimit / FirstSyncDepth / ScopedDepthLimit x segment size {off,1,2,k-1,k,k+1} as SegmentDepthLimit / ScopedSegmentDepthLimit, hook general / scoped / silent / none and the pre-stored subset rotating through all 2^n subsets; the full decision table of option resolution on a 3-chain (432 combinations); all 2^n pre-stored subsets for n <= 5 on fixed requests; entries chains of length 0..5 from every position x depth x segment size; SyncOneEntry at every position; SyncHAMTEntries over trees (direct and nested links) with all pre-stored subsets; non-strict advertisement selector over ads with entries; publisher not serving a block (pre-stored or not); two-sync sequences on one subscriber with a growing chain; histories with RemoveHandler and idle-cleaner expiry (IdleHandlerTTL 60 ms) between syncs, with GetLatestSync observed after every step; WithLastKnownSync as a source of the stop point (128 decision-table rows); histories in which the publisher withdraws a block so that a sync fails part way, restores it, and the same subscriber syncs again (other head / stop / depth, entries syncs in between); chains of length 1..7 driven by the library's own dagsync.MakeGeneralBlockHook with every segment size 1..n+1; Syncer.Sync called directly with selectors built by DagsyncSelector / ExploreRecursiveWithStop / ExploreRecursiveWithStopNode (root at every position x every stop link x limit none/1/2/k/k+1, chains, a tree, the non-strict ad world); the retryable HTTP client on a sample. " +
+	c.Res.Rule = "advertisement chains of length 0..5 (quick; 6 sampled) / 0..8 (thorough): head queried or WithHeadAdCid at every position x stop {none, every position incl. the head, foreign CID} given as latest sync / WithStopAdCid / with WithAdsResync / both x depth limit {none,1,k-1,k,k+1} (k = blocks from head to stop) placed as AdsDepthLimit / FirstSyncDepth / ScopedDepthLimit x segment size {off,1,2,k-1,k,k+1} as SegmentDepthLimit / ScopedSegmentDepthLimit, hook general / scoped / silent / none and the pre-stored subset rotating through all 2^n subsets; the full decision table of option resolution on a 3-chain (432 combinations); all 2^n pre-stored subsets for n <= 5 on fixed requests; entries chains of length 0..5 from every position x depth x segment size; SyncOneEntry at every position; SyncHAMTEntries over trees (direct and nested links) with all pre-stored subsets; non-strict advertisement selector over ads with entries; publisher not serving a block (pre-stored or not); two-sync sequences on one subscriber with a growing chain; histories with RemoveHandler and idle-cleaner expiry (IdleHandlerTTL 60 ms) between syncs, with GetLatestSync observed after every step; WithLastKnownSync as a source of the stop point (128 decision-table rows); histories in which the publisher withdraws a block so that a sync fails part way, restores it, and the same subscriber syncs again (other head / stop / depth, entries syncs in between); chains of length 1..7 driven by the library's own dagsync.MakeGeneralBlockHook with every segment size 1..n+1; Syncer.Sync called directly with selectors built by DagsyncSelector / ExploreRecursiveWithStop / ExploreRecursiveWithStopNode (root at every position x every stop link x limit none/1/2/k/k+1, chains, a tree, the non-strict ad world); the retryable HTTP client on a sample; publisher-update-during-head-request schedules (a head request parked in the publisher's Sign while SetRoot moves the root, then queried-head and explicit-head syncs on fresh and existing subscribers). " +
 		"non-trivial = a call that reported >= 2 blocks under a stop, a depth limit, segmentation or pre-stored blocks"
 	genDecisionTable(c)
 	genAdChains(c)
@@ -77,4 +78,5 @@ func main() {
 	genRetry(c)
 	genGeneralHook(c)
 	genSelectors(c)
+	genHeadRace(c)
 }
